@@ -217,6 +217,9 @@ func (x *Exec) callExternal(st *State, call *ast.CallExpr, callee *types.Func, p
 		fh := x.fresh("file", SInt)
 		st.assume(Eq(App(SStr, "file-name", fh), asTerm(as[0])), "openfile")
 		x.ghostLog(st, "open", asTerm(as[0]))
+		if len(as) > 1 {
+			x.ghostSet(st, "openflags", OpaqueV{T: Int(0)}, asTerm(as[1])) // flags of the most recent OpenFile (spec: openflags())
+		}
 		e := x.fresh("err", SInt)
 		x.noteOSErr(st, e)
 		sig := callee.Type().(*types.Signature)
